@@ -569,4 +569,8 @@ def check(ctx, rep):
 
     # findings reach a file only under the very path the directory walk yields for it
     rule_location_file_verbatim(ctx, rep)
+    from .c12 import rule_results_all_added
+
+    # 'exactly those k are rewritten': a finding the reader drops is a reported site that stays unfixed
+    rule_results_all_added(ctx, rep)
     rep.not_covered += ["column arithmetic of match_location against each tool's real output", "closed/resolved issue filtering beyond the Sonar status test"]
